@@ -56,6 +56,10 @@ def run(patch, tier, props, tag='x', keep=False):
             if m and os.path.exists(m.group(1)):
                 try:
                     r = json.load(open(m.group(1)))
+                    if r.get('kind') == 'counterexample' and r.get('input') and os.environ.get('LAB_WITNESS_DIR'):
+                        os.makedirs(os.environ['LAB_WITNESS_DIR'], exist_ok=True)
+                        with open(os.path.join(os.environ['LAB_WITNESS_DIR'], '%s.%s.op' % (tag, p)), 'w') as wf:
+                            wf.write(r['input'] + '\n')
                     fd = r.get('first_disagreement') or r.get('counterexample') or {}
                     detail = 'kind=%s broken=%s op=%s key=%s go=%s lean=%s' % (r.get('kind'), r.get('broken'), str(fd.get('op'))[:160], fd.get('key'), str(fd.get('go'))[:80], str(fd.get('lean'))[:80])
                     if r.get('obligations_output'):
